@@ -13,7 +13,9 @@ import (
 	"strconv"
 	"strings"
 	"time"
+	"unsafe"
 
+	"github.com/gobwas/httphead"
 	"github.com/gobwas/ws"
 	"github.com/gobwas/ws/wsflate"
 	"github.com/gobwas/ws/wsutil"
@@ -31,7 +33,7 @@ func init() {
 	}
 	r7Wrap("C01", r7C01)
 	r7Wrap("C04", r7C01)
-	for _, id := range []string{"C01", "C02", "C06", "C08", "C17"} {
+	for _, id := range []string{"C01", "C02", "C06", "C08"} {
 		r7Wrap(id, r7DW)
 	}
 	replayers["DW"] = func(c *ctx, in []string) {
@@ -74,6 +76,20 @@ func init() {
 	r7Wrap("C15", r7WindowBits)
 	r7Wrap("C16", r7HSWLong)
 	r7Wrap("C19", c19D)
+	r7Wrap("C17", r7C17X)
+	r7Wrap("C10", r7C17X)
+	replayers["C17HX"] = func(c *ctx, in []string) {
+		pick, _ := strconv.Atoi(in[3])
+		bs, _ := strconv.Atoi(in[4])
+		pad, _ := strconv.Atoi(in[5])
+		var protos []string
+		if in[1] != "-" {
+			for _, p := range strings.Split(in[1], ",") {
+				protos = append(protos, string(unhx(p)))
+			}
+		}
+		c17HX(c, c17HS{path: in[0], protos: protos, exts: string(unhx(in[2])), pick: pick, bufSize: bs, pad: pad})
+	}
 	r7Wrap("C10", c19D)
 	replayers["C19D"] = func(c *ctx, in []string) { c19D(c) }
 	// r7-C17b: a response accepting TWO parameterised extensions in one header line (and three, and repeated names)
@@ -621,4 +637,65 @@ func c19D(c *ctx) {
 	b := one(0)
 	cc := one(3 * time.Second)
 	c.emit("C19D x -> 1 %s %s %s %s", a, b, alone, cc)
+}
+
+// r7-C17b: the values of ONE handshake result must be what the peer sent and must not share memory with each other
+// (every accepted extension copied into the same scratch buffer overwrites the earlier ones; a write through one result
+// shows up in another).  C17HX <handshake tokens> -> <status> <equal to what was sent 0|1> <pairs sharing memory>
+func c17HX(c *ctx, h c17HS) {
+	var hs *ws.Handshake
+	var err error
+	st := guarded(func() { _, hs, err = runHS(h) })
+	if st != "ok" || err != nil || hs == nil {
+		c.emit("C17HX %s -> err 1 0", h.tokens())
+		return
+	}
+	var raw [][]byte
+	for _, e := range hs.Extensions {
+		raw = append(raw, e.Name)
+		e.Parameters.ForEach(func(k, v []byte) bool {
+			raw = append(raw, k, v)
+			return true
+		})
+	}
+	var want [][]byte
+	opts, _ := httphead.ParseOptions([]byte(h.exts), nil)
+	for _, e := range opts {
+		if h.path != "dial" && string(e.Name) == "nope" {
+			continue // the server-side selectors of runHS refuse this one
+		}
+		want = append(want, e.Name)
+		e.Parameters.ForEach(func(k, v []byte) bool {
+			want = append(want, k, v)
+			return true
+		})
+	}
+	equal := len(raw) == len(want)
+	for i := 0; equal && i < len(raw); i++ {
+		equal = bytes.Equal(raw[i], want[i])
+	}
+	shared := 0
+	for i := range raw {
+		for j := i + 1; j < len(raw); j++ {
+			if len(raw[i]) == 0 || len(raw[j]) == 0 {
+				continue
+			}
+			a0 := uintptr(unsafe.Pointer(&raw[i][0]))
+			b0 := uintptr(unsafe.Pointer(&raw[j][0]))
+			if a0 < b0+uintptr(len(raw[j])) && b0 < a0+uintptr(len(raw[i])) {
+				shared++
+			}
+		}
+	}
+	c.emit("C17HX %s -> ok %d %d", h.tokens(), b2i(equal), shared)
+}
+
+func r7C17X(c *ctx) {
+	exts := []string{"foo; a=1; mode=fast, bar; x=22; y=xyz", "foo; a=1, bar; x=\"quoted value\"; y", "bar; x=2; y, foo; a=1",
+		"foo; alpha=1; beta=22; gamma=333, bar; longer-parameter-name=longer-value, baz; z=9"}
+	for _, e := range exts {
+		for _, bs := range []int{0, 512, 4096} {
+			c17HX(c, c17HS{path: "dial", protos: []string{"chat"}, exts: e, bufSize: bs})
+		}
+	}
 }
